@@ -360,9 +360,10 @@ func evalC18(c c18Case) (multi bool, err error) {
 				return multi, fmt.Errorf("%s: call %d to %q dialled addresses of two different replacements %v", what, i+1, target, addrs)
 			}
 			repl = replOf[a]
-			ap, err := netip.ParseAddrPort(a)
-			if err == nil {
-				fam[ap.Addr().Is4()]++
+			if h, _, err := net.SplitHostPort(a); err == nil { // (the port may be a service name)
+				if ip, err := netip.ParseAddr(h); err == nil {
+					fam[ip.Is4()]++
+				}
 			}
 		}
 		if caching {
@@ -553,6 +554,11 @@ func c18Gen(t *rapid.T, maxDials int) c18Case {
 				m.Dsts = append(m.Dsts, fmt.Sprintf("%s:%d", c.Hosts[rapid.IntRange(0, nh-1).Draw(t, fmt.Sprintf("dsth%d.%d", i, j))].Name, 9000+10*i+j))
 			} else {
 				m.Dsts = append(m.Dsts, fmt.Sprintf("192.168.%d.%d:%d", i, j+1, 9000+10*i+j))
+			}
+			if rapid.IntRange(0, 5).Draw(t, fmt.Sprintf("svcport%d.%d", i, j)) == 0 {
+				// a port given by its service name, which the dialer looks up like a number
+				d := m.Dsts[len(m.Dsts)-1]
+				m.Dsts[len(m.Dsts)-1] = d[:strings.LastIndex(d, ":")+1] + rapid.SampledFrom([]string{"http", "https", "domain"}).Draw(t, fmt.Sprintf("svc%d.%d", i, j))
 			}
 		}
 		c.ConnectTo = append(c.ConnectTo, m)
